@@ -179,12 +179,26 @@ pub fn contexts_of(c: &LineCase) -> Vec<(&'static str, LineCase)> {
     if with_extras.user_unit.is_none() {
         with_extras.user_unit = Some((2, true, true));
     }
-    vec![
+    let mut v = vec![
         ("held in a variable", LineCase { text: format!("zq = {}\nzq", c.text), ..c.clone() }),
+        ("held in a variable with a non-ASCII name", LineCase { text: format!("ölçü = {}\nölçü", c.text), ..c.clone() }),
         ("followed by a comment", LineCase { text: format!("{} # note 5 %", c.text), ..c.clone() }),
+        ("followed by a comment with multi-byte and case-length-changing characters", LineCase { text: format!("{} # yıl İ ŉ 日本", c.text), ..c.clone() }),
         ("as the second line of a text", LineCase { text: format!("1 + 1\n{}", c.text), ..c.clone() }),
         ("next to a user rule and a user unit family that match nothing", LineCase { cfg: with_extras, ..c.clone() }),
-    ]
+    ];
+    // a value that does not carry a zone must not depend on the default zone
+    let zone_free = match &c.expect {
+        Expect::Value(val, _) | Expect::ValueOut(val, _, _) => matches!(val, Val::Number(..) | Val::Percent(..) | Val::Money(..) | Val::Duration(..) | Val::Unit(..)),
+        _ => false,
+    };
+    let clock_words = ["today", "tomorrow", "yesterday", "now", "bugün", "yarın", "dün", ":"];
+    if zone_free && c.cfg.tz.is_none() && !clock_words.iter().any(|w| c.text.contains(w)) && !c.text.contains(" pm") && !c.text.contains(" am") {
+        let mut z = c.cfg.clone();
+        z.tz = Some("EST".to_string());
+        v.push(("under the default zone EST", LineCase { cfg: z, ..c.clone() }));
+    }
+    v
 }
 
 pub fn exec_line(ctx: &mut Ctx, c: &LineCase) -> Verdict {
